@@ -446,6 +446,32 @@ func (s *Script) Query(nd, na int, extra []Term, getModelOf []string) string {
 	return b.String()
 }
 
+// RelaxedQuery is Query without the quantified hypotheses (a weaker set of assumptions: its models are
+// candidates only, never proofs of anything).
+func (s *Script) RelaxedQuery(nd, na int, extra []Term, getModelOf []string) string {
+	var b strings.Builder
+	b.WriteString(prelude)
+	for _, d := range s.decls[:nd] {
+		b.WriteString(d)
+		b.WriteByte('\n')
+	}
+	for _, a := range s.asserts[:na] {
+		if strings.Contains(a, "(forall ") || strings.Contains(a, "(exists ") {
+			continue
+		}
+		b.WriteString(a)
+		b.WriteByte('\n')
+	}
+	for _, e := range extra {
+		b.WriteString("(assert " + e.S + ")\n")
+	}
+	b.WriteString("(check-sat)\n")
+	if len(getModelOf) > 0 {
+		b.WriteString("(get-value (" + strings.Join(getModelOf, " ") + "))\n")
+	}
+	return b.String()
+}
+
 // ---------------------------------------------------------------------------------------
 // Solvers
 
